@@ -19,11 +19,15 @@ RULE = ("two tables read from generated BED/BED6/VCF/SAM/FASTQ/two-line FASTA/BA
         "t[i] with i spelled as Python int / np.int64 / np.int32 / np.intp, each program run twice (lazy / eager, each mode asked for "
         "through one combination of the documented switches: bionumpy.config.LAZY assigned or via ConfigContext x the lazy= keyword x "
         "default - the keyword wins, then the config - and the tables must BE of that mode): random "
-        "register programs over {len, get field, t[slice|mask|int list], t[i], np.concatenate([t,u]), replace(t, f=values), iteration, "
+        "register programs over {len, get field, t[slice|mask|int list], t[i], np.concatenate([t,u]) and n-ary np.concatenate([t,u,u..]), "
+        "replace(t, f=values), iteration, "
         "todict, str(), "
         "t.f = values, tolist, write}; observation after every step (lazy writes are additionally held to C04's rule: original bytes when "
         "nothing was replaced, original text of every never-replaced column otherwise); plus EVERY program of length <= 2 (quick) / <= 3 (thorough) over a "
-        "14-operation alphabet on a 2-row and a 1-row BED6 table. Non-trivial = the program touches >= 2 of "
+        "14-operation alphabet on a 2-row and a 1-row BED6 table; 'filter every file of a set and concatenate': THREE files of unequal "
+        "size in three registers, each replaced by a selection of itself with every pattern of selections WITHOUT rows (all-False mask, "
+        "empty slice, empty int list) among selections with rows, then one n-ary np.concatenate of 3-4 operands in any order, fields "
+        "read before and after. Non-trivial = the program touches >= 2 of "
         "{field access, index, concatenate, replace/setattr} before an observation")
 EXHAUSTIVE = {"quick": False, "thorough": False}   # the small-scope family is exhaustive, the rest is sampled
 MODEL_OPS = {"run"}
@@ -39,6 +43,8 @@ ASSUMPTIONS = [
     "the strand column (one encoded character per row) has a different array shape in the two modes, so no single replacement "
     "array is valid in both: it is observed but never replaced",
     "an operation that raises leaves the table unchanged; only the fact of failing is compared, not the exception class",
+    "an n-ary np.concatenate([a, b, m1, ...]) is run by the Lean machines as the binary steps a := [a, b]; a := [a, m1]; ... (only the "
+    "last one is an observation of the case); the n-ary rule of the code is concatNew / concatNew_spec, associativity concat_assoc_view",
     "FASTQ / two-line FASTA / BAM buffers have no `concatenate`: their lazy tables become eager on np.concatenate; the eager result "
     "is modelled by the observationally equal lazy table whose overlay holds every field (Cfg.bufferConcat = false); BAM additionally "
     "has no modified write and no eager writer (Cfg.modWrite = Cfg.eagerWrite = false), its records come from this module's "
@@ -143,10 +149,10 @@ def _val(kind, text):
     return text
 
 
-def make_tables(rng, fmt, canonical):
+def make_tables(rng, fmt, canonical, ntab=2):
     shape = {"samples": -1 if canonical else rng.choice([-1, 0, 1, 2])}
     tabs = []
-    for _ in range(2):
+    for _ in range(ntab):
         rows = []
         for _ in range(rng.choice([1, 2, 3, 4, 5])):
             if fmt == "bam":
@@ -195,9 +201,9 @@ def _reg_rows(c):
     return c["tables"]
 
 
-def make_case(rng, fmt, nops, canonical=None, parts=False):
+def make_case(rng, fmt, nops, canonical=None, parts=False, ntab=2):
     canonical = (rng.random() < 0.5) if canonical is None else canonical
-    tabs, shape = make_tables(rng, fmt, canonical)
+    tabs, shape = make_tables(rng, fmt, canonical, ntab)
     lens = [len(t) for t in tabs]
     pinfo = None
     if parts and fmt != "bam":
@@ -238,6 +244,11 @@ def make_case(rng, fmt, nops, canonical=None, parts=False):
             b = rng.choice([0, 1])
             ops.append({"k": "cat", "a": a, "b": b})
             lens[a] = lens[a] + lens[b]
+            if rng.random() < 0.3:
+                # n-ary: np.concatenate([reg a, reg b, further registers ...]) (further operands are other registers than a)
+                more = [1 - a] * rng.choice([1, 1, 2])
+                ops[-1]["more"] = more
+                lens[a] += sum(lens[m] for m in more)
         elif r < 0.8 and REPLACEABLE[fmt] and n:
             fs = sorted(rng.sample(REPLACEABLE[fmt], rng.choice([1, 1, 2])))
             d = a if rng.random() < 0.6 else 1 - a
@@ -289,6 +300,31 @@ def cases(tier, rng):
                           {"k": "index", "a": 0, "d": 0, "ix": {"ints": [n0 - 1, 0]}}, {"k": "get", "a": 0, "f": f}]]
             for s in scen:
                 yield dict(base, ops=s + base["ops"], chunk=0)
+    # "filter every file of a set, concatenate what is left": THREE files of unequal size in three registers, each replaced by a
+    # selection of itself - every pattern of selections WITHOUT rows (all-False mask, empty slice, empty int list) among operands with
+    # rows - then ONE n-ary np.concatenate (3 or 4 operands, any register first, a register twice), fields read before / after
+    for fmt in fmts:
+        for canonical in (True, False):
+            base = make_case(rng, fmt, 0, canonical, ntab=3)
+            ns = [len(t) for t in base["tables"]]
+            nF = len(KINDS[fmt])
+            for pattern in range(8):
+                for variant in range(2 if big else 1):
+                    ops = []
+                    for r in range(3):
+                        n = ns[r]
+                        if pattern >> r & 1:
+                            ix = rng.choice([{"mask": [False] * n}, {"slice": [n, None, 1]}, {"ints": []}, {"slice": [0, 0, 1]}])
+                        else:
+                            ix = rng.choice([{"mask": [True] * n}, {"mask": [i != 0 or n == 1 for i in range(n)]}, {"slice": [None, None, -1]},
+                                             {"ints": [n - 1, 0]}])
+                        ops.append({"k": "index", "a": r, "d": r, "ix": ix})
+                        if rng.random() < 0.3:
+                            ops.append({"k": "get", "a": r, "f": rng.randrange(nF)})
+                    order = rng.sample([0, 1, 2], 3)
+                    cat = {"k": "cat", "a": order[0], "b": order[1], "more": [order[2]] + ([order[1]] if rng.random() < 0.3 else [])}
+                    tail = [{"k": "get", "a": order[0], "f": rng.randrange(nF)}, {"k": "tolist", "a": order[0]}, {"k": "write", "a": order[0]}]
+                    yield dict(base, ops=ops + [cat] + tail + base["ops"], chunk=0)
     for fmt in fmts:
         m = per if fmt in MODEL_FMTS else per // 2
         for _ in range(m):
@@ -402,11 +438,11 @@ def oracle(c):
             i = o["i"]
             out.append({"rows": [_blank(fmt, t[i])]} if -len(t) <= i < len(t) else "err")
         elif k == "cat":
-            b = o["b"]
-            texts[a] = [list(r) for r in texts[a]] + [list(r) for r in texts[b]]
-            raws[a] = list(raws[a]) + list(raws[b])
-            over[a] = set(range(nF)) if kline else (over[a] | over[b])
-            regs[a] = [list(r) for r in t] + [list(r) for r in regs[b]]
+            bs = [a, o["b"]] + list(o.get("more", []))       # the operands, in order (n-ary when `more` is given)
+            texts[a] = [list(r) for b in bs for r in texts[b]]
+            raws[a] = [r for b in bs for r in raws[b]]
+            over[a] = set(range(nF)) if kline else set().union(*(over[b] for b in bs))
+            regs[a] = [list(r) for b in bs for r in regs[b]]
             out.append({"num": len(regs[a])})
         elif k in ("replace", "setattr"):
             kw = o["kw"] if k == "replace" else [[o["f"], o["c"]]]
@@ -444,8 +480,32 @@ def _blank(fmt, row):
     return row
 
 
+def _model_ops(c):
+    """(the operations sent to the Lean register machines, the positions among them that correspond to the case's own steps).
+    iteration and todict materialise the data object exactly like tolist; str() builds its text from a fresh slice and leaves the
+    table unchanged (modelled by the state-neutral `len`; its text is compared lazy vs eager on the implementation only); an n-ary
+    np.concatenate([a, b, m1, ...]) (every m_i another register than a) is run by the machines as the binary steps
+    a := [a, b]; a := [a, m1]; ... of which only the last is an observation of the case (the n-ary rule itself is `concatNew_spec`)"""
+    remap = {"iter": "tolist", "todict": "tolist", "str": "len"}
+    ops, keep = [], []
+    for o in c["ops"]:
+        o = dict(o, k=remap.get(o["k"], o["k"]))
+        more = o.pop("more", None) or []
+        assert all(m != o["a"] for m in more)
+        ops.append(o)
+        for m in more:
+            ops.append({"k": "cat", "a": o["a"], "b": m})
+        keep.append(len(ops) - 1)
+    return ops, keep
+
+
+def _kept(c, trace):
+    keep = _model_ops(c)[1]
+    return [trace[i] for i in keep] if isinstance(trace, list) and len(trace) > keep[-1] else trace
+
+
 def agree_spec(c, s, exp):
-    return core.canon(s.get("spec")) == core.canon(exp.get("spec"))
+    return core.canon(_kept(c, s.get("spec"))) == core.canon(exp.get("spec"))
 
 
 def _dump_row(fmt, r):
@@ -565,7 +625,7 @@ def _run_mode(c, lazy, paths, d):
                 e = t[conv(o["i"])]        # an index computed with NumPy is a NumPy scalar, not a Python int
                 obs = {"rows": [_row_obs(e, names, kinds)]}
             elif k == "cat":
-                r = np.concatenate([t, regs[o["b"]]])
+                r = np.concatenate([t, regs[o["b"]]] + [regs[m] for m in o.get("more", [])])
                 regs[a] = r
                 obs = {"num": len(r)}
             elif k == "replace":
@@ -682,9 +742,10 @@ def agree_model(c, got, m):
         return False
     hdr = _header(c)
     for mode in ("lazy", "eager"):
-        if len(got[mode]) != len(m[mode]):
+        mm = _kept(c, m[mode])
+        if len(got[mode]) != len(mm):
             return False
-        for o, a, b in zip(c["ops"], got[mode], m[mode]):
+        for o, a, b in zip(c["ops"], got[mode], mm):
             if a == b or o["k"] == "str":
                 continue
             if o["k"] in ("row", "iter") and a == "err":
@@ -713,10 +774,7 @@ def model_request(c):
     if c["op"] != "run":
         return None
     tables = [[{"raw": r["raw"], "cells": r["cells"]} for r in t] for t in _reg_rows(c)]
-    # iteration and todict materialise the data object exactly like tolist; str() builds its text from a fresh slice and leaves
-    # the table unchanged (modelled by the state-neutral `len`; its text is compared lazy vs eager on the implementation only)
-    remap = {"iter": "tolist", "todict": "tolist", "str": "len"}
-    ops, drop = [dict(o, k=remap.get(o["k"], o["k"])) for o in c["ops"]], 0
+    ops, drop = _model_ops(c)[0], 0
     if c["chunk"]:
         parts = _chunk_parts(c)
         if parts and len(parts) > 1:
@@ -725,8 +783,9 @@ def model_request(c):
             for n in parts:
                 pieces.append(rows[pos:pos + n])
                 pos += n
-            tables = [pieces[0], tables[1]] + pieces[1:]
-            pre = [{"k": "cat", "a": 0, "b": 2 + i} for i in range(len(pieces) - 1)]
+            nreg = len(tables)
+            tables = [pieces[0]] + tables[1:] + pieces[1:]
+            pre = [{"k": "cat", "a": 0, "b": nreg + i} for i in range(len(pieces) - 1)]
             ops, drop = pre + ops, len(pre)
     hdr = _header(c)
     if c["fmt"] == "bam":
